@@ -268,6 +268,11 @@ class C16(FloatSpec):
 
         s = make_signal(c)
         n, w, fs, A = c['n'], c['window'], c['fs'], c['A']
+        if w == 'hann':
+            # the window of theorem `csd_hann_tone` (hannW) is SciPy's periodic hann
+            hw = 0.5 - 0.5 * np.cos(2 * np.pi * np.arange(n) / n)
+            if np.max(np.abs(get_window('hann', n) - hw)) > 1e-15:
+                return f"get_window('hann', {n}) is not 1/2 - 1/2 cos(2 pi j/n)"
         z = util.csd(s, window=w, detrend=None)
         if z.shape != (n // 2 + 1,):
             return f'csd of {n} samples has shape {z.shape}'
